@@ -36,6 +36,24 @@ def build():
     return ok, (p.stdout + p.stderr)[-4000:]
 
 
+def extraction_current():
+    """True if Extract/Extract.vo exists and is not older than any .v it was built from (so the OCaml
+    driver, rebuilt by build.sh whenever the extracted model changes, is the current model)."""
+    ext = os.path.join(COQ, "Extract", "Extract.vo")
+    if not os.path.exists(ext):
+        return False
+    t = os.path.getmtime(ext)
+    with open(os.path.join(COQ, "_CoqProject")) as f:
+        names = [l.strip() for l in f if l.strip().endswith(".v")]
+    for n in names:
+        if n.startswith(("Props/", "Proofs/", "Gen/")):
+            continue
+        vo = os.path.join(COQ, n + "o")
+        if not os.path.exists(vo) or os.path.getmtime(os.path.join(COQ, n)) > os.path.getmtime(vo):
+            return False
+    return True
+
+
 def scan_forbidden():
     hits = []
     for root, _, files in os.walk(COQ):
